@@ -138,10 +138,15 @@ def check_physics(specs, mats, P_hist, S_hist, n0):
     for j, (sp, Rm) in enumerate(zip(specs, mats)):
         Pin, Sin = P_hist[j], S_hist[j]
         Pout, Sout = P_hist[j + 1], S_hist[j + 1]
+        Rm_ = np.eye(3) if Rm is None else np.asarray(Rm, dtype=float)
+        if np.isfinite(Pout).all() and not np.isfinite(Sout).all() and sp['kind'] in ('refr', 'refract'):
+            # beyond the critical angle (total internal reflection) the property makes no claim: NaN is acceptable there
+            _, N0 = implicit(sp['shape'], Rm_ @ (Pout - _pvec(sp['P'])))
+            if n * np.linalg.norm(np.cross(Rm_ @ Sin, N0 / np.linalg.norm(N0))) >= sp.get('n', 1.0) * (1 - 1e-9):
+                return bad
         if not (np.isfinite(Pout).all() and np.isfinite(Sout).all()):
             bad.append(f'surface {j}: ray lost (non-finite output {Pout.tolist()} {Sout.tolist()})')
             return bad
-        Rm_ = np.eye(3) if Rm is None else np.asarray(Rm, dtype=float)
         X = Rm_ @ (Pout - _pvec(sp['P']))
         si = Rm_ @ Sin
         so = Rm_ @ Sout
@@ -356,7 +361,7 @@ def _case_of(specs, P, S, n0, single):
 def correspondence(ctx):
     sf, sm, co = _impl()
     rng = ctx.rng
-    npres = ctx.scale(150, 2500)
+    npres = ctx.scale(150, 8000)
     nrays = ctx.scale(8, 16)
     if ctx.widen:
         npres *= 2
